@@ -33,7 +33,7 @@ pub fn check() -> Check {
         spec: CheckSpec {
             prop: "C10",
             level: "exploration",
-            rule: "execution = one real node running the real handle_changes loop with processing_queue_len in 1..64, apply_queue_len in 1..50 and a short batching interval; traffic from 1-4 actors: complete versions, versions cut into 2-12 chunks, empties, exact duplicates, interleaved actors, offered while the harness holds the write connection for seeded intervals so the queue overflows; then re-offer rounds (everything not held, random order) with logical idleness between rounds (hook gauges: received == sent, queue empty, nothing in flight, apply triggers drained); oracle: a changeset offered, not held, and still not accepted after 3 idle re-offer rounds is lost for good; whenever bookkeeping claims a version/seq range the rows are in the table or the buffer; non-trivial = execution in which at least one changeset was dropped by the full queue; distinct by hash of the configuration+traffic",
+            rule: "execution = one real node running the real handle_changes loop with processing_queue_len in 1..64, apply_queue_len in 1..50 and a short batching interval; traffic from 1-4 actors: complete versions, versions cut into 2-12 chunks, empties, exact duplicates, interleaved actors, offered while the harness holds the write connection for seeded intervals so the queue overflows; then re-offer rounds (everything not held, random order) with logical idleness between rounds (hook gauges: received == sent, queue empty, nothing in flight, apply triggers drained); then re-offer rounds in which every version not fully held is offered again as its original chunks, as one complete changeset or freshly cut (other suppliers cut differently); oracle: a version still not fully held after 3 idle re-offer rounds is lost for good; whenever bookkeeping claims a version/seq range the rows are in the table or the buffer; non-trivial = execution in which at least one changeset was dropped by the full queue; distinct by hash of the configuration+traffic",
             assumptions: &[
                 "bounded restatement of 'after finitely many offers': 3 idle re-offer rounds after the overload ended",
                 "one handle_changes loop per process (the hook gauges are process-wide)",
@@ -79,6 +79,7 @@ fn mk_version(actor_idx: u8, version: u64, k: usize, chunks: usize) -> Vec<Item>
     let per = k.div_ceil(chunks);
     let mut out = vec![];
     let mut start = 0usize;
+    let _ = &changes;
     while start < k {
         let end = (start + per).min(k) - 1;
         out.push(Item {
@@ -97,6 +98,26 @@ fn mk_version(actor_idx: u8, version: u64, k: usize, chunks: usize) -> Vec<Item>
         start = end + 1;
     }
     out
+}
+
+/// a changeset of `actor_idx`/`version` (k changes) covering seqs a..=b
+fn cut(actor_idx: u8, version: u64, k: usize, a: usize, b: usize) -> Item {
+    let all = mk_version(actor_idx, version, k, 1);
+    let full = &all[0];
+    let Changeset::Full { changes, last_seq, ts, .. } = &full.change.changeset else { unreachable!() };
+    Item {
+        change: ChangeV1 {
+            actor_id: full.change.actor_id,
+            changeset: Changeset::Full {
+                version: CrsqlDbVersion(version),
+                changes: changes[a..=b].to_vec(),
+                seqs: CrsqlSeq(a as u64)..=CrsqlSeq(b as u64),
+                last_seq: *last_seq,
+                ts: *ts,
+            },
+        },
+        ids: full.ids[a..=b].to_vec(),
+    }
 }
 
 async fn held(node: &Node, c: &ChangeV1) -> bool {
@@ -177,6 +198,7 @@ pub async fn one_execution(seed: u64, stats: &mut BTreeMap<String, u64>) -> Resu
 
     let n_actors = rng.random_range(1..=4u8);
     let mut items: Vec<Item> = vec![];
+    let mut versions_meta: Vec<(u8, u64, usize)> = vec![]; // (actor idx, version, k)
     let mut multi_chunk = 0;
     for a in 0..n_actors {
         let versions = rng.random_range(1..=6u64);
@@ -187,6 +209,7 @@ pub async fn one_execution(seed: u64, stats: &mut BTreeMap<String, u64>) -> Resu
                 multi_chunk += 1;
             }
             items.extend(mk_version(a + 1, v, k, chunks));
+            versions_meta.push((a + 1, v, k));
         }
     }
     *stats.entry("multi_chunk_versions".into()).or_insert(0) += multi_chunk;
@@ -236,14 +259,18 @@ pub async fn one_execution(seed: u64, stats: &mut BTreeMap<String, u64>) -> Resu
     *stats.entry("dropped_by_full_queue".into()).or_insert(0) += dropped;
     let nontrivial = dropped > 0;
 
-    // ---- phase 2: re-offer rounds, the way sync re-requests what is not held
+    // ---- phase 2: re-offer rounds. Each round offers, for every version not fully held, a set of
+    // changesets covering it: the original chunks that are not held, or the complete changeset, or a
+    // fresh cut (other suppliers cut the same version differently).
     let mut violations = vec![];
     let mut rounds = 0;
     let mut not_held: Vec<usize> = vec![];
+    let mut strategies_used: Vec<String> = vec![];
     for r in 0..4 {
         not_held.clear();
-        for (idx, it) in items.iter().enumerate() {
-            if !held(&node, &it.change).await {
+        for (idx, (ai, v, k)) in versions_meta.iter().enumerate() {
+            let complete = cut(*ai, *v, *k, 0, *k - 1);
+            if !held(&node, &complete.change).await {
                 not_held.push(idx);
             }
         }
@@ -252,14 +279,52 @@ pub async fn one_execution(seed: u64, stats: &mut BTreeMap<String, u64>) -> Resu
         }
         rounds += 1;
         *stats.entry("reoffer_rounds".into()).or_insert(0) += 1;
-        *stats.entry("reoffered_changesets".into()).or_insert(0) += not_held.len() as u64;
         not_held.shuffle(&mut rng);
         for idx in not_held.iter() {
-            tx.send((items[*idx].change.clone(), ChangeSource::Sync)).await.map_err(|e| e.to_string())?;
-            sent += 1;
-            // slow enough not to overflow again: the overload has ended
-            if qlen < 64 {
-                wait_idle(&mut node, sent, &mut tally, &mut pending).await?;
+            let (ai, v, k) = versions_meta[*idx];
+            let strategy = rng.random_range(0..3);
+            let mut offers: Vec<ChangeV1> = vec![];
+            match strategy {
+                0 => {
+                    // the original chunks that are not held
+                    for it in items.iter() {
+                        if it.change.actor_id == fake_actor(ai) && it.change.versions().start().0 == v && !held(&node, &it.change).await {
+                            offers.push(it.change.clone());
+                        }
+                    }
+                    *stats.entry("reoffer.same_chunks".into()).or_insert(0) += 1;
+                }
+                1 => {
+                    offers.push(cut(ai, v, k, 0, k - 1).change);
+                    *stats.entry("reoffer.complete_changeset".into()).or_insert(0) += 1;
+                }
+                _ => {
+                    // fresh cut into 1-3 pieces
+                    let mut cuts: Vec<usize> = (0..rng.random_range(0..=2usize)).map(|_| rng.random_range(0..k)).collect();
+                    cuts.sort();
+                    cuts.dedup();
+                    let mut a = 0usize;
+                    for c in cuts {
+                        if c + 1 < k && c >= a {
+                            offers.push(cut(ai, v, k, a, c).change);
+                            a = c + 1;
+                        }
+                    }
+                    offers.push(cut(ai, v, k, a, k - 1).change);
+                    *stats.entry("reoffer.fresh_cut".into()).or_insert(0) += 1;
+                }
+            }
+            if strategies_used.len() < 12 {
+                strategies_used.push(format!("round {rounds}: a{ai} v{v}: strategy {strategy} -> {:?}", offers.iter().map(super::changeset_brief).collect::<Vec<_>>()));
+            }
+            *stats.entry("reoffered_changesets".into()).or_insert(0) += offers.len() as u64;
+            for c in offers {
+                tx.send((c, ChangeSource::Sync)).await.map_err(|e| e.to_string())?;
+                sent += 1;
+                // slow enough not to overflow again: the overload has ended
+                if qlen < 64 {
+                    wait_idle(&mut node, sent, &mut tally, &mut pending).await?;
+                }
             }
         }
         wait_idle(&mut node, sent, &mut tally, &mut pending).await?;
@@ -267,11 +332,12 @@ pub async fn one_execution(seed: u64, stats: &mut BTreeMap<String, u64>) -> Resu
     *stats.entry(format!("rounds_needed.{rounds}")).or_insert(0) += 1;
     if !not_held.is_empty() {
         violations.push((
-            "lost/changeset-not-accepted-after-3-idle-reoffer-rounds".into(),
+            "lost/version-not-accepted-after-3-idle-reoffer-rounds".into(),
             json!({
                 "config": log_head,
                 "dropped_by_full_queue": dropped,
-                "still_not_held": not_held.iter().take(10).map(|i| super::changeset_brief(&items[*i].change)).collect::<Vec<_>>(),
+                "still_not_fully_held": not_held.iter().take(10).map(|i| format!("a{} v{} ({} changes)", versions_meta[*i].0, versions_meta[*i].1, versions_meta[*i].2)).collect::<Vec<_>>(),
+                "reoffers": strategies_used,
                 "actors_in_traffic": n_actors,
             }),
         ));
